@@ -10,37 +10,27 @@ Local Open Scope N_scope.
 Lemma refuted_empty_neq :
   Permutation [] (default_ord g4 w_empty_h1 []) /\
   ttl_consistent (g_vttl g4) 1000 (1001 * sec) w_empty_h1 = true /\
-  within_32g g4 Index 1000 [] w_empty_h1 [] = true /\ reload_noop g4 Index 1000 [] w_empty_h1 [] = true /\
+  reload_noop g4 Index 1000 [] w_empty_h1 [] = true /\
   read_of (compacted g4 Index 1000 [] w_empty_h1 []) (1001 * sec) 1 <> read_of (twin g4 w_empty_h1 []) (1001 * sec) 1.
 Proof.
-  destruct refuted_empty as [A [B [C [D [E F]]]]]. repeat split; auto. rewrite E, F. discriminate.
+  destruct refuted_empty as [A [B [D [E F]]]]. repeat split; auto. rewrite E, F. discriminate.
 Qed.
 
 Lemma refuted_ttl_neq :
   Permutation [] (default_ord g4 w_ttl_h1 []) /\
   has_empty (w_ttl_h1 ++ []) = false /\
-  within_32g g4 Index 1000 [] w_ttl_h1 [] = true /\ reload_noop g4 Index 1000 [] w_ttl_h1 [] = true /\
+  reload_noop g4 Index 1000 [] w_ttl_h1 [] = true /\
   read_of (compacted g4 Index 1000 [] w_ttl_h1 []) (1001 * sec) 1 <> read_of (twin g4 w_ttl_h1 []) (1001 * sec) 1.
 Proof.
-  destruct refuted_ttl as [A [B [C [D [E F]]]]]. repeat split; auto. rewrite E, F. discriminate.
+  destruct refuted_ttl as [A [B [D [E F]]]]. repeat split; auto. rewrite E, F. discriminate.
 Qed.
 
 Lemma refuted_scan_neq :
   Permutation [] (default_ord g4 w_scan_h1 []) /\
   has_empty (w_scan_h1 ++ []) = false /\ ttl_consistent (g_vttl g4) 1000 (1001 * sec) w_scan_h1 = true /\
-  within_32g g4 Scan 1000 [] w_scan_h1 [] = true /\
   read_of (compacted g4 Scan 1000 [] w_scan_h1 []) (1001 * sec) 1 <> read_of (twin g4 w_scan_h1 []) (1001 * sec) 1.
 Proof.
-  destruct refuted_scan as [A [B [C [D [_ [E F]]]]]]. repeat split; auto. rewrite E, F. discriminate.
-Qed.
-
-Lemma refuted_fifth_byte_neq :
-  Permutation [2; 3] (default_ord g5 w_hi_h1 w_hi_h2) /\
-  has_empty (w_hi_h1 ++ w_hi_h2) = false /\ ttl_consistent (g_vttl g5) 1000 (1001 * sec) w_hi_h1 = true /\
-  reload_noop g5 Index 1000 [2; 3] w_hi_h1 w_hi_h2 = true /\
-  read_of (compacted g5 Index 1000 [2; 3] w_hi_h1 w_hi_h2) (1001 * sec) 2 <> read_of (twin g5 w_hi_h1 w_hi_h2) (1001 * sec) 2.
-Proof.
-  destruct refuted_fifth_byte as [A [B [C [D [E F]]]]]. repeat split; auto. rewrite E, F. discriminate.
+  destruct refuted_scan as [A [B [C [_ [E F]]]]]. repeat split; auto. rewrite E, F. discriminate.
 Qed.
 
 (* ---------- the newest .idx entry passes the check ---------- *)
@@ -173,20 +163,12 @@ Proof.
 Qed.
 
 (* --- makeupDiff: the last entry made up is the last record --- *)
-Lemma patch_zero : forall osz old, old < 34359738368 -> patch osz 0 old = 0.
+Lemma makeup_one_tail : forall old F e, sorted_recs (f_recs F) (f_end F) ->
+  ent_src old e ->
+  let F' := makeup_one old F e in tail_ok (f_recs F') (f_end F') (f_idx F').
 Proof.
-  intros osz old Ho. unfold patch.
-  assert (H2 : old / 8 < 4294967296) by (apply N.div_lt_upper_bound; lia).
-  rewrite (N.div_small _ _ H2). destruct (osz =? 5); reflexivity.
-Qed.
-
-Lemma makeup_one_tail : forall osz old F e, sorted_recs (f_recs F) (f_end F) -> f_end F mod 8 = 0 ->
-  ent_src old e -> ie_off e < 34359738368 -> f_end F < 34359738368 ->
-  let F' := makeup_one osz old F e in tail_ok (f_recs F') (f_end F') (f_idx F').
-Proof.
-  intros osz old F e Hs Hm Hsrc Ho Hf. simpl. unfold makeup_one. fold (is_upd e). destruct (is_upd e) eqn:U.
+  intros old F e Hs Hsrc. simpl. unfold makeup_one. fold (is_upd e). destruct (is_upd e) eqn:U.
   - destruct (Hsrc U) as [r [Hfr Hsz]]. rewrite Hfr. unfold tail_ok. cbn [f_recs f_end f_idx].
-    rewrite (patch_exact osz (f_end F) (ie_off e) Hm Hf Ho).
     pose proof (sorted_recs_end _ _ Hs) as H8.
     unfold verify_entry. cbn [ie_off ie_size ie_key].
     assert (O : f_end F =? 0 = false) by (apply N.eqb_neq; lia). rewrite O.
@@ -194,45 +176,36 @@ Proof.
     assert (S : (ie_size e <? 0)%Z = false) by (apply Z.ltb_ge; lia). rewrite S.
     simpl. rewrite N.eqb_refl. simpl. rewrite Hsz, Z.eqb_refl. simpl.
     assert (Hzn : Z.to_N (ie_size e) = r_size r) by (rewrite <- Hsz; apply N2Z.id). rewrite Hzn, N.eqb_refl. reflexivity.
-  - unfold tail_ok. cbn [f_recs f_end f_idx]. rewrite (patch_zero osz (ie_off e) Ho). reflexivity.
+  - unfold tail_ok. cbn [f_recs f_end f_idx]. reflexivity.
 Qed.
 
-Lemma fold_end_mono : forall osz old d ord F, sorted_recs (f_recs F) (f_end F) -> f_end F mod 8 = 0 ->
-  (forall k e, idx_get d k = Some e -> ent_src old e) -> f_end F <= f_end (fold_left (mstep osz old d) ord F).
-Proof. intros. apply (fi_ge _ _ (fold_finv osz old d ord F H H0 H1)). Qed.
-
-Lemma makeup_tail : forall osz old d ord F, sorted_recs (f_recs F) (f_end F) -> f_end F mod 8 = 0 ->
+Lemma makeup_tail : forall old d ord F, sorted_recs (f_recs F) (f_end F) -> f_end F mod 8 = 0 ->
   (forall k e, idx_get d k = Some e -> ent_src old e) ->
-  (forall k e, idx_get d k = Some e -> ie_off e < 34359738368) ->
   (forall k, In k ord -> idx_get d k <> None) ->
-  f_end (fold_left (mstep osz old d) ord F) <= 34359738368 ->
   tail_ok (f_recs F) (f_end F) (f_idx F) ->
-  let F' := fold_left (mstep osz old d) ord F in tail_ok (f_recs F') (f_end F') (f_idx F').
+  let F' := fold_left (mstep old d) ord F in tail_ok (f_recs F') (f_end F') (f_idx F').
 Proof.
-  intros osz old d ord F Hs Hm Hsrc Hoff Hord Hend T. simpl.
+  intros old d ord F Hs Hm Hsrc Hord T. simpl.
   destruct ord as [|k0 ord0] eqn:Eo; [exact T|]. rewrite <- Eo in *.
   assert (Hne : ord <> []) by (rewrite Eo; discriminate).
   destruct (exists_last Hne) as [ord' [k Hk]]. rewrite Hk in *. rewrite fold_left_app in *. simpl in *.
-  set (F1 := fold_left (mstep osz old d) ord' F) in *.
-  pose proof (fold_finv osz old d ord' F Hs Hm Hsrc) as FI. fold F1 in FI.
+  set (F1 := fold_left (mstep old d) ord' F) in *.
+  pose proof (fold_finv old d ord' F Hs Hm Hsrc) as FI. fold F1 in FI.
   assert (Hin : In k (ord' ++ [k])) by (apply in_or_app; right; left; reflexivity).
   destruct (idx_get d k) as [e|] eqn:G; [|exfalso; apply (Hord k Hin); exact G].
   unfold mstep in *. rewrite G in *.
-  destruct (makeup_one_finv osz old F1 e (fi_sorted _ _ FI) (fi_mod8 _ _ FI) (Hsrc _ _ G)) as [_ Hlt].
-  apply makeup_one_tail; eauto; [apply (fi_sorted _ _ FI) | apply (fi_mod8 _ _ FI) | lia].
+  apply makeup_one_tail; eauto. apply (fi_sorted _ _ FI).
 Qed.
 
 Theorem index_reload_noop : forall g now_s ord h1 h2,
   Permutation ord (default_ord g h1 h2) ->
   no_pad (h1 ++ h2) = true ->
-  within_32g g Index now_s ord h1 h2 = true ->
   reload_noop g Index now_s ord h1 h2 = true.
 Proof.
-  intros g now_s ord h1 h2 P Hnp H32.
+  intros g now_s ord h1 h2 P Hnp.
   destruct (setting_intro g ord h1 h2 P) as [s1 [s2 [d S]]].
   destruct S as [E1 E2 I1 I2 G Hd Hdiff Htw Hnd Hord].
   assert (S : setting g ord h1 h2 s1 s2 d) by (constructor; assumption).
-  unfold within_32g in H32. apply andb_prop in H32. destruct H32 as [B2 BF]. apply N.leb_le in B2, BF. rewrite Htw in B2.
   unfold reload_noop. apply tail_ok_noop.
   rewrite (compacted_files_unfold g Index now_s ord h1 h2 s1 s2 d S) in *.
   destruct (makeup_fails (length (cidx s1)) s2).
@@ -251,9 +224,7 @@ Proof.
         destruct (size_deleted (ie_size e)) eqn:D; [|reflexivity]. apply size_deleted_neg in D. apply size_valid_pos in V. lia. }
       destruct (idx_live _ _ _ I2 (Hpre _ _ Hg) Dd) as [L _].
       destruct (live_facts _ _ _ _ I2 L) as [_ [_ [_ [r [Hf [Hsz _]]]]]]. exists r. auto.
-    + intros k e Hg. pose proof (idx_get_In _ _ _ (Hpre _ _ Hg)) as Hin. pose proof (ci_idx_off _ I2 e Hin). lia.
     + intros k Hin. apply Hord. exact Hin.
-    + exact BF.
     + apply index_files_tail. exact I1.
 Qed.
 
@@ -366,7 +337,7 @@ Proof.
   pose proof (compact_spec al (g_vttl g) now_s s1 I1) as CS. fold a in CS. destruct CS as [Cs Ca Cm Csome Cnone].
   rewrite Hd, idx_get_app in Hno.
   destruct (idx_get d id) as [e|] eqn:Gd; [discriminate|].
-  pose proof (makeup_idx (g_osz g) (cv s2) d ord (files_of a) id Hnd) as MI. cbv zeta in MI. rewrite Gd in MI.
+  pose proof (makeup_idx (cv s2) d ord (files_of a) id Hnd) as MI. cbv zeta in MI. rewrite Gd in MI.
   rewrite MI. change (f_idx (files_of a)) with (save_idx (a_db a)). rewrite save_idx_get by exact Ca.
   destruct (idx_get (a_db a) id) as [e0|] eqn:G0; [|reflexivity]. exfalso.
   destruct (Csome id e0 G0) as [_ [_ [[nv1 [G1 Hpos]] _]]].
